@@ -16,16 +16,18 @@ LEVEL = 'model_checking'
 ENGINE = 'custom'
 DRIVER = ('vf.ref.builder_model', 'driver')
 ASSUMPTIONS = [
-    '50-point phases (step fraction 0.02); shipped sample performance model; harness airports file adds one airport above cruise level',
-    'events: two valid missions, a valid mission with explicit starting mass, unknown origin/destination, airport above cruise level, starting mass outside the envelope; weather builder: valid, missing weather file, outside weather domain',
+    '50-point phases (step fraction 0.02); shipped sample performance model and a copy with fuel flow x1.12; harness airports file adds one airport above cruise level',
+    'builders: no iteration, iteration (5, 1e-2), (50, 1e-4), (1, 1e-6), iteration with a low fuel heating value (negative first residual), weather, weather+iteration',
+    'events: three valid missions, the same missions with a second performance model (same ceiling), a valid mission with explicit starting mass, unknown origin/destination, airport above cruise level, starting mass outside the envelope; weather builder: valid, missing weather file, outside weather domain',
     'dedup key = fingerprint of vars(builder) after the history',
 ]
 PLAN = {
     # (builder, alphabet, undedup depth, bfs depth)
-    'quick': [('noiter', 'plain', 2, 3), ('iter', 'plain-small', 2, 3), ('iter-one', 'plain-small', 2, 2), ('weather', 'weather', 2, 2),
-              ('noiter', 'plain-small', 3, 0)],
+    'quick': [('noiter', 'plain', 2, 3), ('iter', 'plain-small', 2, 3), ('iter-one', 'plain-small', 2, 2),
+              ('iter-lowlhv', 'iter-lhv', 2, 2), ('weather', 'weather-small', 3, 0), ('noiter', 'plain-small', 3, 0)],
     'thorough': [('noiter', 'plain', 3, 6), ('iter', 'plain', 3, 5), ('iter-tight', 'plain-small', 3, 4), ('iter-one', 'plain', 2, 4),
-                 ('weather', 'weather', 3, 4), ('noiter', 'plain-small', 4, 0)],
+                 ('iter-lowlhv', 'iter-lhv', 3, 4), ('iter-lowlhv-tight', 'iter-lhv', 2, 3), ('weather', 'weather', 3, 4),
+                 ('weather-iter', 'weather-small', 2, 0), ('noiter', 'plain-small', 4, 0)],
 }
 
 
